@@ -3,6 +3,7 @@ from lib import cfg
 from lib.callgraph import CallGraph
 from rules import common
 
+CRATES = ("agdb",)
 EXPLANATION = (
     "Static analysis: (R03a) DbImpl::transaction_mut brackets the user closure and the logical commit/rollback in one "
     "storage transaction on every CFG path (begin dominates the closure call; every path from the closure call to a "
